@@ -874,6 +874,53 @@ def rule_r7(chk, prog, reg):
     m = prog.mod('mutators')
     f = m.func('auto_detect_theories')
     fref = FuncRef(m, 'auto_detect_theories', f)
+    # the evidence: every top-level node is shown to is_relevant
+    from ..astutil import expand_locals
+    nrel = 0
+    # the call may sit in a helper of the module that receives the input
+    scopes7 = [(f, params_of(f)[0])]
+    for hc in calls_in(f):
+        if isinstance(hc.func, ast.Name) and hc.func.id in m.funcs:
+            h = m.funcs[hc.func.id]
+            for pn, a in zip(params_of(h), hc.args):
+                if unparse(a) == params_of(f)[0]:
+                    scopes7.append((h, pn))
+    for (sf, sparam) in scopes7:
+      for c in calls_in(sf):
+        if not (isinstance(c.func, ast.Attribute)
+                and c.func.attr == 'is_relevant' and c.args
+                and isinstance(c.args[0], ast.Name)):
+            continue
+        nrel += 1
+        it = None
+        p_ = getattr(c, '_parent', None)
+        while p_ is not None and p_ is not sf:
+            if isinstance(p_, ast.For) and isinstance(
+                    p_.target, ast.Name) and p_.target.id == c.args[0].id:
+                it = p_.iter
+                break
+            if isinstance(p_, (ast.GeneratorExp, ast.ListComp)):
+                for g_ in p_.generators:
+                    if isinstance(g_.target, ast.Name) and \
+                            g_.target.id == c.args[0].id:
+                        it = g_.iter if not g_.ifs else ast.Constant(
+                            value='<filtered>')
+            p_ = getattr(p_, '_parent', None)
+        itx = expand_locals(sf, it) if it is not None else None
+        ok = isinstance(itx, ast.Call) and call_name(itx) in (
+            'nodes.dfs', 'nodes.bfs') and itx.args and unparse(
+                itx.args[0]) == sparam
+        chk.check('C14.R7', 'mutators.auto_detect_theories',
+                  'is_relevant sees every top-level node', ok,
+                  'the nodes shown to is_relevant are '
+                  f'"{unparse(itx)[:70] if itx is not None else "?"}", not '
+                  'the traversal of the whole input: declarations that '
+                  'is_relevant would recognise (define-sort, define-fun) '
+                  'are filtered out beforehand and the theory is disabled '
+                  'although the input declares something of it',
+                  loc=m.loc(c), nontrivial=True)
+    chk.floor('C14.R7', 'is_relevant call sites in auto_detect_theories',
+              nrel, 1)
     # fold with: options namespace recording, nodes.dfs -> list of symbolic
     # nodes, theory.is_relevant(node) -> symbolic
     N = 2
